@@ -1,117 +1,209 @@
 //! pcsim — deterministic simulation with fault injection for postcard (properties C05 C08 C09 C10 C11)
+//!
+//! Every command runs as parent + child: the child does the work, the parent only watches for a
+//! crash of the code under test (guard page hit, abort) and turns it into a replayable violation.
 
 mod acc;
+mod arena;
+mod c05;
+mod c10;
 mod refenc;
 mod rng;
 mod runner;
 mod shape;
+mod supervisor;
 mod sut;
 
 use runner::{RunCfg, Scenario, Tier};
 use std::time::Duration;
+use supervisor::ChildEnd;
 
 fn usage() -> ! {
     eprintln!(
-        "usage:\n  pcsim run <C05|C08|C09|C10|C11> <quick|thorough> [--runs N] [--threads T] [--seed S] [--evidence PATH] [--replay-dir DIR] [--known PATH] [--extra-coverage PATH]\n  pcsim replay <file>\n  pcsim selftest"
+        "usage:\n  pcsim run <C05|C08|C09|C10|C11> <quick|thorough> [--runs N] [--threads T] [--seed S] [--evidence PATH | --no-evidence] [--replay-dir DIR] [--known PATH] [--extra-coverage PATH]\n  pcsim replay <file>"
     );
     std::process::exit(2)
 }
 
-fn run_id(id: &str, cfg: &mut RunCfg, runs: Option<u64>) -> i32 {
-    fn go<S: Scenario>(cfg: &mut RunCfg, runs: Option<u64>) -> i32 {
-        cfg.runs = runs.unwrap_or_else(|| S::default_runs(cfg.tier));
-        runner::run::<S>(cfg)
-    }
-    match id {
-        "C08" => go::<acc::C08>(cfg, runs),
-        "C09" => go::<acc::C09>(cfg, runs),
-        _ => {
-            eprintln!("harness error: no scenario for property {id}");
-            2
+macro_rules! with_scenario {
+    ($id:expr, $s:ident => $body:expr) => {
+        match $id {
+            "C05" => {
+                type $s = c05::C05;
+                $body
+            }
+            "C08" => {
+                type $s = acc::C08;
+                $body
+            }
+            "C10" => {
+                if let Err(e) = c10::oracle_selftest() {
+                    eprintln!("harness error: CRC oracle self-test failed: {e}");
+                    std::process::exit(2);
+                }
+                type $s = c10::C10;
+                $body
+            }
+            "C09" => {
+                type $s = acc::C09;
+                $body
+            }
+            other => {
+                eprintln!("harness error: no scenario for property {other:?}");
+                std::process::exit(2)
+            }
         }
+    };
+}
+
+fn parse_run(args: &[String]) -> (String, RunCfg, Option<u64>) {
+    if args.len() < 3 {
+        usage();
+    }
+    let verif = std::env::var("PCSIM_VERIF_DIR").unwrap_or_else(|_| "/verif".to_string());
+    let id = args[1].clone();
+    let tier = match args[2].as_str() {
+        "quick" => Tier::Quick,
+        "thorough" => Tier::Thorough,
+        _ => usage(),
+    };
+    let seed = std::env::var("VERIF_SEED")
+        .ok()
+        .and_then(|s| s.trim().parse::<i128>().ok())
+        .map(|v| v as u64)
+        .unwrap_or(20261003);
+    let mut cfg = RunCfg {
+        tier,
+        seed,
+        runs: 0,
+        threads: std::thread::available_parallelism().map(|n| n.get()).unwrap_or(4).min(16),
+        evidence: Some(format!("{verif}/evidence/{id}.json")),
+        replay_dir: format!("{verif}/replays"),
+        known_findings: format!("{verif}/known_findings.json"),
+        minimise_budget: Duration::from_secs(30),
+        quiet: false,
+        extra_coverage: None,
+    };
+    let mut runs = None;
+    let mut i = 3;
+    while i < args.len() {
+        let val = |i: usize| args.get(i + 1).cloned().unwrap_or_else(|| usage());
+        match args[i].as_str() {
+            "--runs" => runs = Some(val(i).parse().unwrap_or_else(|_| usage())),
+            "--threads" => cfg.threads = val(i).parse().unwrap_or_else(|_| usage()),
+            "--seed" => cfg.seed = val(i).parse().unwrap_or_else(|_| usage()),
+            "--evidence" => cfg.evidence = Some(val(i)),
+            "--no-evidence" => {
+                cfg.evidence = None;
+                i += 1;
+                continue;
+            }
+            "--replay-dir" => cfg.replay_dir = val(i),
+            "--known" => cfg.known_findings = val(i),
+            "--extra-coverage" => cfg.extra_coverage = Some(val(i)),
+            _ => usage(),
+        }
+        i += 2;
+    }
+    (id, cfg, runs)
+}
+
+fn read_doc(path: &str) -> serde_json::Value {
+    let txt = std::fs::read_to_string(path).unwrap_or_else(|e| {
+        eprintln!("harness error: cannot read {path}: {e}");
+        std::process::exit(2)
+    });
+    serde_json::from_str(&txt).unwrap_or_else(|e| {
+        eprintln!("harness error: {path} is not JSON: {e}");
+        std::process::exit(2)
+    })
+}
+
+fn child_main(args: &[String]) -> i32 {
+    supervisor::install_crash_handler();
+    sut::install_hook();
+    match args[0].as_str() {
+        "run" => {
+            let (id, mut cfg, runs) = parse_run(args);
+            with_scenario!(id.as_str(), S => {
+                cfg.runs = runs.unwrap_or_else(|| S::default_runs(cfg.tier));
+                runner::run::<S>(&cfg)
+            })
+        }
+        "replay" => {
+            let path = &args[1];
+            let doc = read_doc(path);
+            let id = doc["property"].as_str().unwrap_or("").to_string();
+            with_scenario!(id.as_str(), S => runner::replay::<S>(path, &doc))
+        }
+        "exec-trace" => {
+            // exec-trace <ID> <file holding a bare trace>: 0 = holds, 1 = violation; may crash
+            let id = args[1].clone();
+            let txt = std::fs::read_to_string(&args[2]).unwrap_or_default();
+            with_scenario!(id.as_str(), S => {
+                match serde_json::from_str::<<S as Scenario>::Trace>(&txt) {
+                    Ok(t) => {
+                        supervisor::set_run(0);
+                        let o = runner::exec_one::<S>(&t, false);
+                        o.violation.is_some() as i32
+                    }
+                    Err(e) => {
+                        eprintln!("harness error: bad trace: {e}");
+                        2
+                    }
+                }
+            })
+        }
+        _ => usage(),
     }
 }
 
 fn main() {
-    let args: Vec<String> = std::env::args().skip(1).collect();
+    let mut args: Vec<String> = std::env::args().skip(1).collect();
     if args.is_empty() {
         usage();
     }
+    if args[0] == "--child" {
+        args.remove(0);
+        if args.is_empty() {
+            usage();
+        }
+        std::process::exit(child_main(&args));
+    }
+    // parent
     let verif = std::env::var("PCSIM_VERIF_DIR").unwrap_or_else(|_| "/verif".to_string());
     match args[0].as_str() {
         "run" => {
-            if args.len() < 3 {
-                usage();
-            }
-            let id = args[1].clone();
-            let tier = match args[2].as_str() {
-                "quick" => Tier::Quick,
-                "thorough" => Tier::Thorough,
-                _ => usage(),
-            };
-            let seed = std::env::var("VERIF_SEED")
-                .ok()
-                .and_then(|s| s.trim().parse::<i128>().ok())
-                .map(|v| v as u64)
-                .unwrap_or(20261003);
-            let mut cfg = RunCfg {
-                tier,
-                seed,
-                runs: 0,
-                threads: std::thread::available_parallelism().map(|n| n.get()).unwrap_or(4).min(16),
-                evidence: Some(format!("{verif}/evidence/{id}.json")),
-                replay_dir: format!("{verif}/replays"),
-                known_findings: format!("{verif}/known_findings.json"),
-                minimise_budget: Duration::from_secs(30),
-                quiet: false,
-                extra_coverage: None,
-            };
-            let mut runs = None;
-            let mut i = 3;
-            while i < args.len() {
-                let val = |i: usize| args.get(i + 1).cloned().unwrap_or_else(|| usage());
-                match args[i].as_str() {
-                    "--runs" => runs = Some(val(i).parse().unwrap_or_else(|_| usage())),
-                    "--threads" => cfg.threads = val(i).parse().unwrap_or_else(|_| usage()),
-                    "--seed" => cfg.seed = val(i).parse().unwrap_or_else(|_| usage()),
-                    "--evidence" => cfg.evidence = Some(val(i)),
-                    "--no-evidence" => {
-                        cfg.evidence = None;
-                        i += 1;
-                        continue;
-                    }
-                    "--replay-dir" => cfg.replay_dir = val(i),
-                    "--known" => cfg.known_findings = val(i),
-                    "--extra-coverage" => cfg.extra_coverage = Some(val(i)),
-                    _ => usage(),
+            let (id, mut cfg, runs) = parse_run(&args);
+            let _ = std::fs::create_dir_all(&cfg.replay_dir);
+            let crash_file = format!("{}/.crash-{}", cfg.replay_dir, std::process::id());
+            match supervisor::spawn_child(&args, &crash_file, false) {
+                ChildEnd::Exit(c) => std::process::exit(c),
+                ChildEnd::Crash { signal, run, ctx } => {
+                    let code = with_scenario!(id.as_str(), S => {
+                        cfg.runs = runs.unwrap_or_else(|| S::default_runs(cfg.tier));
+                        supervisor::handle_crash::<S>(&cfg, signal, run, ctx)
+                    });
+                    std::process::exit(code);
                 }
-                i += 2;
             }
-            std::process::exit(run_id(&id, &mut cfg, runs));
         }
         "replay" => {
             if args.len() < 2 {
                 usage();
             }
-            sut::install_hook();
-            let path = &args[1];
-            let txt = std::fs::read_to_string(path).unwrap_or_else(|e| {
-                eprintln!("harness error: cannot read {path}: {e}");
-                std::process::exit(2)
-            });
-            let doc: serde_json::Value = serde_json::from_str(&txt).unwrap_or_else(|e| {
-                eprintln!("harness error: {path} is not JSON: {e}");
-                std::process::exit(2)
-            });
-            let code = match doc["property"].as_str().unwrap_or("") {
-                "C08" => runner::replay::<acc::C08>(path, &doc),
-                "C09" => runner::replay::<acc::C09>(path, &doc),
-                other => {
-                    eprintln!("harness error: unknown property {other:?} in {path}");
-                    2
+            let path = args[1].clone();
+            let doc = read_doc(&path);
+            let id = doc["property"].as_str().unwrap_or("?").to_string();
+            let crash_file = format!("{verif}/replays/.crash-{}", std::process::id());
+            match supervisor::spawn_child(&args, &crash_file, false) {
+                ChildEnd::Exit(c) => std::process::exit(c),
+                ChildEnd::Crash { signal, .. } => {
+                    println!("replay: the process died with signal {signal} while executing the trace");
+                    println!("VIOLATION property={id} replay={path}");
+                    std::process::exit(1);
                 }
-            };
-            std::process::exit(code);
+            }
         }
         _ => usage(),
     }
